@@ -18,6 +18,7 @@ type MonState struct {
 	ClockTouched bool
 	// C12: a slash or a take-rate deduction happened (entitlements are computed from CURRENT token values)
 	ValueChanged bool
+	MaxResolution *big.Rat // worst 18-digit resolution of a validator's share ratio seen in this history (probes.go)
 	// sticky: the first reason the history left the scope of the value theorems (see unhealthyReason)
 	Unhealthy string
 }
@@ -194,6 +195,11 @@ func (e *Env) Monitor(st *Step) {
 		e.Mon.Unhealthy = unhealthyReason(pre)
 	}
 	st.Unhealthy = e.Mon.Unhealthy
+	for _, x := range []*State{pre, post} {
+		if b := resolutionBound(x); e.Mon.MaxResolution == nil || b.Cmp(e.Mon.MaxResolution) > 0 {
+			e.Mon.MaxResolution = b
+		}
+	}
 
 	// ---- C17 end-of-block totality ----------------------------------------------------------------------------
 	// a failed end-of-block halts the chain: the partial state it leaves is judged by C17 only
@@ -605,7 +611,15 @@ func ledgerFailures(post, pre *State, kind string, ok bool) map[string]string {
 			// sub-share drift per clamped subtraction / dust clearing (D13); at large magnitudes one ulp of a
 			// share ratio is worth many shares, so the dust bound is also relative (1e-12 of the total per event)
 			rel := new(big.Int).Quo(new(big.Int).Mul(new(big.Int).Abs(a.S), n), big.NewInt(1_000_000_000_000))
-			if diff.Cmp(new(big.Int).Mul(bigP, n)) < 0 || diff.Cmp(rel) < 0 {
+			// … and a position worth less than one token is cleared as dust: at a share price above one share per token
+			// that is up to one token's worth of shares per event
+			perToken := new(big.Int).Set(bigP)
+			if a.T.Sign() > 0 {
+				if q := new(big.Int).Quo(new(big.Int).Abs(a.S), a.T); q.Cmp(perToken) > 0 {
+					perToken = q
+				}
+			}
+			if diff.Cmp(new(big.Int).Mul(bigP, n)) < 0 || diff.Cmp(rel) < 0 || diff.Cmp(new(big.Int).Mul(perToken, n)) < 0 {
 				cls = "valshares_dust"
 			} else if pa := pre.Asset(a.Denom); (pa != nil && pa.T.Cmp(bigE15) >= 0) || a.T.Cmp(bigE15) >= 0 || a.S.Cmp(new(big.Int).Mul(bigE15, bigP)) >= 0 || w.Cmp(new(big.Int).Mul(bigE15, bigP)) >= 0 {
 				cls = "valshares_dust_large" // D14: one ulp of a share ratio times 1e15+ tokens is many shares
